@@ -513,6 +513,11 @@ def open_inner_summary(facts, in_memory):
         "tantivy::IndexReaderBuilder::try_into": ("reader", "fallible-value"),
     }
     dom = _EffectDomain(effects, oracle=oracle)
+    # helpers that only open_inner uses (a split-off rebuild / load_assets / register_tokenizers ...) are followed;
+    # everything else that is not an effect or summarised above stays an uninterpreted term
+    from ..callgraph import CallGraph as _CG
+    own = {p for p in _CG(facts).exclusive("db::Db::open_inner") if facts.fn(p) is not None and facts.fn(p).file == body.file}
+    dom.uninterp = lambda n: n not in own
     it = _core.Interp(facts, dom, budget=300000)
     outs = it.run(body, [_Const(bool(in_memory))], {})
     return dom, it, body, outs
